@@ -1,9 +1,10 @@
 CONFIG = {
     "rule": "cases = (a) generated programs `def f(): <body>; r = f()` over the statement fragment {if/elif/else, while(+else), for(+else) over a probe iterator, "
-            "break, continue, return, raise, try/except (1-2 handlers, builtin classes, tuples, `as e`), try/finally, try/except/else/finally, with (probe context manager), pass, probe calls ev(i)}: "
-            "every nesting of 24 one-hole contexts to depth 2 x 15 leaves (which probe raises which class / returns / breaks / continues / falls through), depth 3 seeded (quick) or complete (thorough); "
+            "break, continue, return, raise C / raise C(k) / raise C from D / raise <int> / bare raise, try/except (1-2 handlers, builtin classes, tuples, `as e`), try/finally, try/except/else/finally, with (probe context manager), pass, probe calls ev(i)}: "
+            "every nesting of 30 one-hole contexts (6 of them handler-in-handler / finally-in-handler shapes ending in a bare raise or catching an exception that passed through finally / with / a raising handler) to depth 2 x 19 leaves "
+            "(which probe raises which class / returns / breaks / continues / re-raises / falls through), depth 3: 1500 uniform + 4500 samples weighted towards handler and finally contexts (quick) or complete (thorough); "
             "per program three ties: decoded bytecode of f == Model.compS, hook-H2 instruction trace (pc, stack depth, block kinds/levels/handlers) == Model.step trace, "
-            "path log + result / exception class + traceback (function, line) == Spec.execT;  (b) ExceptionGivenMatches on all pairs of 10 builtin classes and on tuples;  "
+            "path log + result / exception class + traceback (function, line) == Spec.execT;  (b) ExceptionGivenMatches on all pairs of 12 builtin classes and on tuples;  "
             "(c) Lnotab()/Addr2Line on instruction streams with line/byte gaps > 255.  "
             "non-trivial = the leaf is not a plain fall-through (program raises/returns/breaks/continues/has a raising condition), a match with caught != raised, a line table with a gap > 255 or several lines; distinct = distinct input lines",
     "trusted_base": [
@@ -16,11 +17,12 @@ CONFIG = {
         "harness/c02.go and checks/common.py (case transport, decoding, canonical text)",
     ],
     "assumptions": [
-        "proved for all inputs (Props.lean): unwind_spec, unwind_exits_unchanged, finally_preserves_reason, exc_match_iff_ancestor, builtin_ancestors_spec, addr2line_lnotab, lnotab_bytes, traceback_line (+ traceback_line_old_witness), "
-        "compS_correct (whole statement fragment incl. try/finally, try/except, with), frame_correct, no_exception_lost, finally_runs_once, exit_called_once, handler_first_match; "
+        "proved for all inputs (Props.lean): unwind_spec (incl. the handled exception restored by every popped EXCEPT_HANDLER block), unwind_exits_unchanged, finally_preserves_reason, handled_exception_restored_unwind, exc_match_iff_ancestor, builtin_ancestors_spec, addr2line_lnotab, lnotab_bytes, traceback_line (+ traceback_line_old_witness), "
+        "compS_correct (whole statement fragment incl. try/finally, try/except, with, bare raise and the handled-exception state vm.exc), handled_exception_restored, bare_raise_reraises_handled, frame_correct, no_exception_lost, finally_runs_once, exit_called_once, handler_first_match, exc_match_iff_ancestor_c3 (multiple inheritance, over the C3 tables of C16: imports GPy.C16.Props), traceback_chain, module_frame, traceback_names_every_call; "
         "the link Lean model <-> Go code is the correspondence run (bytecode, H2 trace, end-to-end), not a proof",
-        "exception chaining (__context__/__cause__), sys.exc_info, bare `raise`, generators (whyYield) and iterators that raise (C05) are outside the fragment",
-        "the module-level frame of the traceback (`<module>:line of the call`) is computed by the same line rule, not by running a second model frame",
+        "exception chaining (__context__/__cause__ are not observed: `raise C from D` is checked for the class and traceback it raises only), sys.exc_info, generators (whyYield) and iterators that raise (C05) are outside the fragment",
+        "the handled exception is modelled per frame (vm.exc is a field of the Vm value RunFrame creates): a bare `raise` in a function CALLED from a handler is outside the fragment (every generated function is called from module level, outside any handler)",
+        "calling frames (`def g(): return f()` wrappers, the module-level `r = f()`) are model frames of their own (Model.wrapperCode / moduleCode run by Model.run; LOAD_NAME/STORE_NAME abstracted to their stack effect); theorems traceback_chain / traceback_names_every_call; only f's frame is traced by hook H2",
         "probe context managers and iterators do not raise themselves",
     ],
     "exhaustive": False,
